@@ -237,43 +237,92 @@ func ruleSimpleEncode(c *core.Ctx) {
 		fn := c.Prog.Func(pk, "(*Simple).Encode")
 		g := fn.Graph()
 		info := fn.Info()
-		best := localVar(fn, "bestCode", 0)
-		// the in-use lookup inside the loop: _, used := t.info[code]
-		var used, codeVar = localVar(fn, "used", 0), localVar(fn, "code", 0)
+		isInfo := func(e ast.Expr) bool {
+			sel, ok := ast.Unparen(e).(*ast.SelectorExpr)
+			return ok && sel.Sel.Name == "info"
+		}
+		// the in-use lookup: _, used := t.info[candidate], inside the search loop
+		var used, codeVar types.Object
+		var lookup *core.V
+		for _, v := range g.Vs {
+			as, ok := v.AST.(*ast.AssignStmt)
+			if !ok || len(as.Lhs) != 2 || len(as.Rhs) != 1 || !g.InLoop(v) {
+				continue
+			}
+			if ix, ok := ast.Unparen(as.Rhs[0]).(*ast.IndexExpr); ok && isInfo(ix.X) {
+				used, codeVar, lookup = core.ObjOf(info, as.Lhs[1]), core.ObjOf(info, ix.Index), v
+				o.At(fn.Site(as, "in-use test of the candidate"))
+			}
+		}
+		if lookup == nil || used == nil || codeVar == nil {
+			o.Fail("the in-use test does not look up the candidate code in t.info")
+			return
+		}
 		var head *core.V
 		for _, h := range loopHeads(g) {
-			head = h
+			if g.ReachFrom(succ(h, core.EdgeTrue), true, core.AvoidVs(h))[lookup] {
+				head = h
+			}
 		}
 		if head == nil {
 			core.Undecided("search loop not found")
 		}
-		// every assignment bestCode = code in the loop is on the !used edge
+		// the code that is recorded: the index of the store t.info[K] = &codeInfo{...}
 		n := 0
-		for _, dv := range defVertices(g, best) {
-			as, ok := dv.AST.(*ast.AssignStmt)
-			if !ok || as.Tok != token.ASSIGN {
+		for _, v := range g.Vs {
+			as, ok := v.AST.(*ast.AssignStmt)
+			if !ok || len(as.Lhs) != 1 || len(as.Rhs) != 1 {
 				continue
 			}
-			n++
-			o.At(fn.Site(as, "chooses "+core.ExprStr(as.Rhs[0])))
-			o.Require(core.ObjOf(info, as.Rhs[0]) == codeVar, "the chosen code is %s, not the loop's candidate", core.ExprStr(as.Rhs[0]))
-			ok2 := g.GuardedBy(dv, func(a core.Atom) bool {
-				id, isID := ast.Unparen(a.Expr).(*ast.Ident)
-				return isID && a.Neg && a.Tag == nil && info.ObjectOf(id) == used
-			})
-			if !ok2 {
-				o.FailAt(fn.Site(as, ""), "a code can be chosen without passing the 'not in use' edge of the t.info lookup: a second (glyph, text) pair would silently take over a code that strings already written use")
+			ix, ok := ast.Unparen(as.Lhs[0]).(*ast.IndexExpr)
+			if !ok || !isInfo(ix.X) || !strings.Contains(c.Prog.Src(as.Rhs[0]), "codeInfo{") {
+				continue
+			}
+			o.At(fn.Site(as, "records the chosen code"))
+			// every value the index can have was chosen from the loop's
+			// candidate on the 'not in use' edge of the lookup
+			var leaves []vcase
+			var resolve func(at *core.V, e ast.Expr, depth int)
+			resolve = func(at *core.V, e ast.Expr, depth int) {
+				if core.ObjOf(info, e) == codeVar || depth == 0 {
+					leaves = append(leaves, vcase{e, at})
+					return
+				}
+				for _, vc := range valueCases(g, at, e, 1) {
+					if vc.V == at {
+						leaves = append(leaves, vc)
+						continue
+					}
+					if _, isID := ast.Unparen(vc.Expr).(*ast.Ident); isID && core.ObjOf(info, vc.Expr) != codeVar {
+						resolve(vc.V, vc.Expr, depth-1)
+					} else {
+						leaves = append(leaves, vc)
+					}
+				}
+			}
+			resolve(v, ix.Index, 4)
+			for _, vc := range leaves {
+				n++
+				if _, isK := core.IntConst(info, vc.Expr); isK && vc.V != v {
+					// the initial value byte(0) of the best-code variable: only
+					// reachable when no candidate was chosen, which the
+					// table-full exit excludes
+					continue
+				}
+				if core.ObjOf(info, vc.Expr) != codeVar {
+					o.FailAt(fn.Site(vc.V.AST, ""), "the chosen code is %s, not the loop's candidate", core.ExprStr(vc.Expr))
+					continue
+				}
+				ok2 := g.GuardedBy(vc.V, func(a core.Atom) bool {
+					id, isID := ast.Unparen(a.Expr).(*ast.Ident)
+					return isID && a.Neg && a.Tag == nil && info.ObjectOf(id) == used
+				})
+				if !ok2 {
+					o.FailAt(fn.Site(vc.V.AST, ""), "a code can be chosen without passing the 'not in use' edge of the t.info lookup: a second (glyph, text) pair would silently take over a code that strings already written use")
+				}
 			}
 		}
-		o.Require(n == 2, "expected two places that choose a code (exact base-encoding match, best score), found %d", n)
-		// the lookup is on t.info[code] with the loop's candidate
-		okLookup := false
-		for _, v := range g.Vs {
-			if as, ok := v.AST.(*ast.AssignStmt); ok && len(as.Lhs) == 2 && core.ObjOf(info, as.Lhs[1]) == used {
-				okLookup = c.Prog.Src(as.Rhs[0]) == "t.info[code]"
-			}
-		}
-		o.Require(okLookup, "the in-use test does not look up the candidate code in t.info")
+		o.Require(n >= 2, "expected at least two places that choose a code (exact base-encoding match, best score), found %d", n)
 		src := c.Prog.Src(fn.Decl.Body)
 		o.Shape(strings.HasPrefix(src, "{key:=gidText{gid:gid,text:text}if_,ok:=t.code[key];ok{return0,ErrDuplicateCode}"), "a pair that already has a code must be rejected first")
 		o.Shape(strings.Contains(src, "iflen(t.info)>=256{t.err=ErrOverflowreturn0,ErrOverflow}"), "the table-full exit must precede the search (it guarantees a free code exists)")
@@ -961,38 +1010,57 @@ func ruleWidthsTrimming(c *core.Ctx) {
 		ww := paramObj(fn, "ww")
 		enc := paramObj(fn, "enc")
 		def := paramObj(fn, "defaultWidth")
-		n := 0
+		g := fn.Graph()
+		// the trimming variables are those stored as /FirstChar and /LastChar
+		trim := map[types.Object]string{}
 		ast.Inspect(fn.Decl.Body, func(m ast.Node) bool {
-			fs, ok := m.(*ast.ForStmt)
-			if !ok || fs.Cond == nil || len(fs.Body.List) != 1 {
+			as, ok := m.(*ast.AssignStmt)
+			if !ok || len(as.Lhs) != 1 || len(as.Rhs) != 1 {
 				return true
 			}
-			inc, ok := fs.Body.List[0].(*ast.IncDecStmt)
-			if !ok {
-				return true
+			if _, key, ok := core.MapIndexKey(info, as.Lhs[0]); ok && (key == "FirstChar" || key == "LastChar") {
+				ast.Inspect(as.Rhs[0], func(x ast.Node) bool {
+					if id, ok := x.(*ast.Ident); ok {
+						if v, isVar := info.ObjectOf(id).(*types.Var); isVar && !v.IsField() {
+							trim[v] = key
+						}
+					}
+					return true
+				})
+			}
+			return true
+		})
+		if len(trim) != 2 {
+			core.Undecided("expected one variable each for /FirstChar and /LastChar, found %d", len(trim))
+		}
+		// every step that moves one of them inwards (inside a loop) happens
+		// only for a code that is unmapped or has the default width
+		n := 0
+		for _, v := range g.Vs {
+			inc, ok := v.AST.(*ast.IncDecStmt)
+			if !ok || !g.InLoop(v) {
+				continue
 			}
 			k, ok := ast.Unparen(inc.X).(*ast.Ident)
-			if !ok {
-				return true
+			if !ok || trim[info.ObjectOf(k)] == "" {
+				continue
 			}
 			n++
 			o.Count(1)
-			o.At(fn.Site(fs, "trims "+k.Name))
+			o.At(fn.Site(inc, "trims "+k.Name+" (/"+trim[info.ObjectOf(k)]+")"))
 			spec := &ast.BinaryExpr{
 				X:  &ast.BinaryExpr{X: &ast.CallExpr{Fun: identUse(fn, enc), Args: []ast.Expr{k}}, Op: token.EQL, Y: &ast.BasicLit{Kind: token.STRING, Value: `""`}},
 				Op: token.LOR,
 				Y:  &ast.BinaryExpr{X: &ast.IndexExpr{X: identUse(fn, ww), Index: k}, Op: token.EQL, Y: identUse(fn, def)},
 			}
-			holds, counter, decided := c.Prog.Implies(core.Formula{Fn: fn, Atoms: []core.Atom{{Expr: fs.Cond}}}, core.Formula{Fn: fn, Atoms: []core.Atom{{Expr: spec}}})
+			holds, counter, decided := c.Prog.Implies(core.Formula{Fn: fn, Atoms: g.DominatingAtoms(v)}, core.Formula{Fn: fn, Atoms: []core.Atom{{Expr: spec}}})
 			if !decided {
 				core.Undecided("trimming condition not decided: %s", counter)
 			}
 			if !holds {
-				o.FailAt(fn.Site(fs, ""), "%s: the loop drops a code from /Widths although it is mapped and its width differs from the default (%s): it reads back with /MissingWidth", c.Prog.Pos(fs.Pos()), counter)
+				o.FailAt(fn.Site(inc, ""), "%s: a code is dropped from /Widths although it is mapped and its width differs from the default (%s): it reads back with /MissingWidth", c.Prog.Pos(inc.Pos()), counter)
 			}
-			_ = info
-			return true
-		})
+		}
 		o.Require(n == 2, "expected the two trimming loops (LastChar, FirstChar), found %d", n)
 	})
 	// composite UTF-8 encoder: occupancy of a code is tested under the key it is stored under
